@@ -19,6 +19,40 @@ THEOREMS = [
     "ProbLogProofs.C34.C34_oset_mem_union",
     "ProbLogProofs.C34.C34_oset_mem_inter",
     "ProbLogProofs.C34.C34_oset_mem_sub",
+    # BitVector = set of naturals
+    "ProbLogProofs.C34.C34_bv_contains_empty",
+    "ProbLogProofs.C34.C34_bv_contains_add",
+    "ProbLogProofs.C34.C34_bv_contains_and",
+    "ProbLogProofs.C34.C34_bv_contains_or",
+    "ProbLogProofs.C34.C34_bv_contains_iand",
+    "ProbLogProofs.C34.C34_bv_contains_ior",
+    "ProbLogProofs.C34.C34_bv_iter_sorted",
+    "ProbLogProofs.C34.C34_bv_mem_iter",
+    "ProbLogProofs.C34.C34_bv_wf_empty",
+    "ProbLogProofs.C34.C34_bv_wf_add",
+    "ProbLogProofs.C34.C34_bv_wf_and",
+    "ProbLogProofs.C34.C34_bv_wf_or",
+    "ProbLogProofs.C34.C34_bv_len",
+    "ProbLogProofs.C34.C34_bv_nonzero",
+    # UHeap = finite map item -> key with delete-min
+    "ProbLogProofs.C34.C34_uheap_empty_wf",
+    "ProbLogProofs.C34.C34_uheap_empty_map",
+    "ProbLogProofs.C34.C34_uheap_items_distinct",
+    "ProbLogProofs.C34.C34_uheap_map_iff_slot",
+    "ProbLogProofs.C34.C34_uheap_root_min",
+    "ProbLogProofs.C34.C34_uheap_push_wf",
+    "ProbLogProofs.C34.C34_uheap_push_map",
+    "ProbLogProofs.C34.C34_uheap_push_is_new",
+    "ProbLogProofs.C34.C34_uheap_push_len",
+    "ProbLogProofs.C34.C34_uheap_pop_wf",
+    "ProbLogProofs.C34.C34_uheap_pop_min",
+    "ProbLogProofs.C34.C34_uheap_pop_map",
+    "ProbLogProofs.C34.C34_uheap_pop_len",
+    "ProbLogProofs.C34.C34_uheap_pop_none",
+    "ProbLogProofs.C34.C34_uheap_pops_nondecreasing",
+    "ProbLogProofs.C34.C34_uheap_reachable_wf",
+    "ProbLogProofs.C34.C34_uheap_drain_sorted",
+    "ProbLogProofs.C34.C34_uheap_drain_entries",
 ]
 
 MANIFEST = {
@@ -26,11 +60,16 @@ MANIFEST = {
     "technique": "Lean 4 theorems about a hand-written model of util.py's containers + step-by-step correspondence "
                  "of model and implementation on random operation sequences",
     "text": "Lean theorems: OrderedSet model is a duplicate-free list in first-insertion order with set semantics for "
-            "|,&,-; every run replays random operation sequences on problog.util and on the compiled Lean model and "
+            "|,&,-; BitVector model is a set of naturals (contains after add/&/|, strictly increasing iteration of exactly "
+            "the members, len = number of members, bool = non-empty); UHeap model keeps the invariant 'index map "
+            "consistent with the array + heap order' under push (insert/update, is_new) and pop_with_key (returns and "
+            "removes a minimum-key entry), so successive pops are non-decreasing; every run replays random operation sequences on problog.util and on the compiled Lean model and "
             "compares every observable (and UHeap's internal array/index) exactly; an independent list/dict/set "
             "oracle decides whether a disagreement is a property failure.",
     "note": "Trusted: Lean kernel, standard axioms, the harness and driver glue. The model is hand-written; it is tied "
-            "to the code only on the operation sequences run. UHeap/BitVector theorems: see evidence obligation list.",
+            "to the code only on the operation sequences run. BitVector len/bool theorems assume every block < 2^32 "
+            "(proved invariant of add/&/|). The real UHeap's _heap/_index are additionally checked against the "
+            "invariant after every heap operation.",
     "design_ref": "DESIGN.md §6 C34",
 }
 
@@ -267,6 +306,14 @@ def run_impl(ops):
                         "(%d %d)" % (it, p) for it, p in sorted(h._index.items()))
                 else:
                     raise Infra("bad op " + op)
+                # the invariant of the Lean theorems (HeapWF), evaluated on the real object after every operation
+                hp, ix = uh[i]._heap, uh[i]._index
+                if any(hp[(j - 1) // 2][0] > hp[j][0] for j in range(1, len(hp))):
+                    bad.append((n, op, "heap order broken: %s" % (hp,)))
+                elif len(ix) != len(hp) or any(ix.get(it) != p for p, (_, it) in enumerate(hp)):
+                    bad.append((n, op, "index map inconsistent with the array: %s %s" % (hp, ix)))
+                elif sorted(it for _, it in hp) != sorted(r) or any(r[it] != k for k, it in hp):
+                    bad.append((n, op, "heap content %s is not the reference map %s" % (hp, r)))
             else:
                 b, r = B(i)
                 if name == "new":
@@ -346,7 +393,7 @@ def run(ctx):
                 "a case = one sequence; distinct = distinct op sequences; non-trivial = at least 10 ops")
     ctx.proof_phase(MODULE, THEOREMS)
     drv = ctx.driver("Drivers.C34")
-    nseq = ctx.budget(600, 20000)
+    nseq = ctx.budget(2000, 50000)
     length = ctx.budget(40, 100)
     rng = ctx.sub_rng("ops")
     seqs = [gen_ops(rng, rng.randrange(10, length + 1)) for _ in range(nseq)]
@@ -355,15 +402,26 @@ def run(ctx):
         seqs = [json.load(open(ctx.replay_in))["replay"]["ops"]]
     first_bad = None
     first_diff = None
+    impls = []
     for ops in seqs:
         impl, bad = run_impl(ops)
+        impls.append(impl)
         ctx.case(" ".join(ops), nontrivial=len(ops) >= 10)
         for o in ops:
             ctx.count(" ".join(o.split()[0:1] + o.split()[2:3]))
         if bad and first_bad is None:
             first_bad = (ops, bad)
-        if drv is not None:
-            model = drv.run(ops)
+    if drv is not None:
+        # one driver process for all sequences; `reset` clears the model state between two sequences
+        lines = []
+        for ops in seqs:
+            lines.append("reset")
+            lines.extend(ops)
+        out = drv.run(lines)
+        pos = 0
+        for ops, impl in zip(seqs, impls):
+            model = out[pos + 1:pos + 1 + len(ops)]
+            pos += 1 + len(ops)
             if model != impl and first_diff is None:
                 k = next(i for i in range(len(ops)) if model[i] != impl[i])
                 first_diff = (ops, k, model[k], impl[k])
